@@ -141,7 +141,7 @@ def make_loop(ctx, w, rep, cur, kappa, message, old_val, record):
     return handler
 
 
-@unit("PrintrunWriter._parse_message", ["C18"])
+@unit("PrintrunWriter._parse_message", ["C18", "C16"])
 def u_parse(ctx):
     st = State(T, {}, {}, []); x = ctx.executor()
     kappa = fresh("kappa", S)
@@ -170,7 +170,7 @@ def u_parse(ctx):
               "A-upper: report keys are upper-case (ParamsDict upper-cases keys; 'x:' and 'X:' in one report are outside the statement)")
 
 
-@unit("PrintrunWriter._update_param", ["C18"])
+@unit("PrintrunWriter._update_param", ["C18", "C16"])
 def u_update(ctx):
     st = State(T, {}, {}, []); x = ctx.executor()
     kappa = fresh("kappa", S)
